@@ -572,6 +572,24 @@ pub fn finish(meta: &Meta, tier: Tier, seed: u64, total: Summary, wall: f64, nwo
     });
     std::fs::create_dir_all(format!("{}/evidence", verif_dir())).ok();
     let evp = format!("{}/evidence/{}.json", verif_dir(), meta.id);
+    // a property served by two engines: the second engine appends its coverage under a key of the first one's file
+    let ev = match std::env::var("MC_EVIDENCE_APPEND_KEY").ok().filter(|k| !k.is_empty()) {
+        Some(key) => {
+            let mut base: Value = std::fs::read_to_string(&evp).ok().and_then(|s| serde_json::from_str(&s).ok()).expect("MC_EVIDENCE_APPEND_KEY set but no evidence file of the first engine");
+            assert_eq!(base["property_id"], json!(meta.id));
+            let mut cov = ev["coverage"].clone();
+            cov["assumptions"] = ev["assumptions"].clone();
+            cov["wall_s"] = ev["wall_s"].clone();
+            base["coverage"][&key] = cov;
+            base["violations"] = json!(base["violations"].as_u64().unwrap_or(0) + unknown.len() as u64);
+            base["wall_s"] = json!(base["wall_s"].as_f64().unwrap_or(0.0) + wall);
+            if !exhaustive {
+                base["coverage"]["exhaustive"] = json!(false);
+            }
+            base
+        }
+        None => ev,
+    };
     std::fs::write(&evp, serde_json::to_string_pretty(&ev).unwrap() + "\n").expect("write evidence");
 
     for l in &known_lines {
